@@ -6,7 +6,7 @@
 (* value tree.  Profiles override  Universe / Inputs / Starts  and list the *)
 (* invariants of PacketProps they check.                                    *)
 (***************************************************************************)
-EXTENDS PacketProps, Universes, Json
+EXTENDS GenPacket, Universes, Json
 
 CONSTANTS UName, Part, NParts      \* this TLC process explores declarations i with i % NParts = Part
 
@@ -68,6 +68,14 @@ Inv_C01_RaiseOnlyOnOverlap == Terminal => C01_RaiseOnlyOnOverlap(start, MU, MP)
 Inv_C10_Same == Terminal => C10_Same(DP, start, MU, MP)
 Inv_C10_Least == Terminal => C10_Least(DP, MU)
 Inv_C12_Shape == (m.st = "fail" => C12_Shape(DP, m.err)) /\ (phase = "pack" /\ p.st = "fail" => C12_Shape(DP, p.err))
+
+\* ---- C03 on the model: the block-step machines (GenPacket.tla) refine the generic machines
+GU == {[u |-> TRUE, p |-> FALSE, vec |-> v] : v \in BOOLEAN}
+GP == {[u |-> FALSE, p |-> TRUE, vec |-> v] : v \in BOOLEAN}
+Fuel == 600
+Inv_C03_Refine == Terminal =>
+    /\ \A g \in GU : C03_RefineU(DP, m, RunUG(DP, Raw, UInit(D.root, start), g, Fuel), g)
+    /\ phase = "pack" => \A g \in GP : C03_RefineP(DP, p, RunPG(DP, PInit0(D.root, m.result.vals, m.regs), g, Fuel), g)
 
 \* ---- export of every terminal behaviour (spec -> code replay)
 Emit == Terminal =>
